@@ -77,12 +77,20 @@ def known_rt(known, prop, failure):
     return None
 
 
+_REPLAY_CACHE = {}
+
+
 def replay_obligation(eng, prop, record, seed):
-    """bounded search for a failing input of `prop` in the module of the failed obligation"""
+    """bounded search for a failing input of `prop` in the module of the failed obligation (one search per property and
+    module per run: further failed obligations of the same module share its outcome)"""
     if prop not in HAS_RT:
         return None
     mod = module_of(record.get('func'))
     focus = None if mod in ('mab', 'base_mab', 'utils', '') or mod.startswith('lemma_') else mod
+    key = (prop, focus)
+    if key in _REPLAY_CACHE:
+        return _REPLAY_CACHE[key]
+    _REPLAY_CACHE[key] = None
     res = run_rt(eng.repo.root, prop, focus=focus, budget=int(os.environ.get('PYVC_REPLAY_BUDGET', '90')), seed=seed,
                  keep_going=True)
     known = _known()
@@ -90,6 +98,7 @@ def replay_obligation(eng, prop, record, seed):
         if known_rt(known, prop, f) is None:
             f['replay'] = 'PYTHONPATH=<tree>:/verif %s -m rt.replay <this file>' % RT_PYTHON
             f['searched'] = {'cases': res.get('cases'), 'focus': focus, 'seconds': res.get('seconds')}
+            _REPLAY_CACHE[key] = f
             return f
     return None
 
